@@ -31,7 +31,7 @@ FINDINGS = {
     "C17": "Relational and identity obligations hold. The bounded native witness fails: `_HamiltonianSystem.rhs` cannot be lowered by numba (typed-list closure) - known finding.",
     "C18": "Two registry edges raised NameError. Fixed `1407b85`.",
     "C19": "KKT minimality failed exactly on `den == 0` (parallel / degenerate segments). Fixed `124537f`. z3's own counter-model is replayed on the real function.",
-    "C20": "Eleven defects, ten fixed: dict values dropped from keys (`6cb7b65`), `scale_factor` key without its arguments (`d36bcc0`), orbit-derived caches that ignored the orbit's state (`19e94cf`), latest-result attributes not updated on cache hits / stale data after a correction with unchanged period (`1f379c0`), cached centre manifold handed out under a degree it no longer has (`988aafb`), `correct()` not re-applying the correction on a cache hit (`e0638a7`), `compute_stability` handing out the last request's decomposition (`48a6118`), centre-manifold maps ignoring the degree of the shared manifold (`184ee53`), results surviving a replaced correction / continuation configuration (`7b6201f`); save/load of service options: known finding (thorough tier).",
+    "C20": "Twelve defects, eleven fixed: dict values dropped from keys (`6cb7b65`), `scale_factor` key without its arguments (`d36bcc0`), orbit-derived caches that ignored the orbit's state (`19e94cf`), latest-result attributes not updated on cache hits / stale data after a correction with unchanged period (`1f379c0`), cached centre manifold handed out under a degree it no longer has (`988aafb`), `correct()` not re-applying the correction on a cache hit (`e0638a7`), `compute_stability` handing out the last request's decomposition (`48a6118`), centre-manifold maps ignoring the degree of the shared manifold (`184ee53`), results surviving a replaced correction / continuation configuration (`7b6201f`), `hamiltonian(d)` switching the degree only on a cache miss (`04fe37f`); save/load of service options: known finding (thorough tier).",
 }
 
 
